@@ -98,7 +98,7 @@ CLAIMED = {
         technique="Coq proof (codec round-trip theorems over generated quoting table) + differential correspondence incl. exhaustive short strings",
         design="4 (C08)"),
     "C09": dict(
-        text="Coq theorems (Properties/C09.v, 12 statements, closed under the global context): for every well-formed line of "
+        text="Coq theorems (Properties/C09.v, 13 statements, closed under the global context): for every well-formed line of "
              "every one of the 36 styles the dialect inferred by the parser's inference path is the style's canonical dialect "
              "(format, key/value separator, quoting, trailing semicolon; field separator when >= 2 parts; repeated-keys flag "
              "when a key repeats; keys in first-seen order) - a corollary of C07_parse_attrs; the vote of _choose_dialect, for "
@@ -108,10 +108,11 @@ CLAIMED = {
              "and the stable descending sort); consistent windows recover their dialect (C09_file_consistent, composing the "
              "parser theorem with the vote); key order = first-seen union, each key once; empty input -> default dialect; a "
              "supplied dialect is returned verbatim; the window is the first checklines+1 features; GFF3 importer iff force_gff "
-             "or fmt = gff3, GTF importer iff fmt = gtf. Tied to helpers.py/iterators.py/create.py by ~770 files per quick run "
+             "or fmt = gff3, GTF importer iff fmt = gtf; the dialect dictionary written to the meta table as JSON text decodes "
+             "to the same dialect (C09_dialect_persists, Model/Json.v). Tied to helpers.py/iterators.py/create.py by ~770 files per quick run "
              "(consistent files in all styles, two-valued mixtures with ties in both orders and zero-weight lines, routing "
              "files, supplied dialects), comparing infer_dialect per line, DataIterator.dialect (path and Feature-list input), "
-             "the dialect on yielded features, db.dialect, the reopened dialect and which importer ran, inside Coq.",
+             "the dialect on yielded features, db.dialect, the stored JSON text, the reopened dialect and which importer ran, inside Coq.",
         note="Trusted: Coq kernel + vm_compute; Model/Dialect.v (hand model of _choose_dialect, the peek window and the "
              "routing in create_db) and Model/Parser.v are tied to the code by the correspondence. The number of inspected "
              "lines (checklines vs checklines+1) is not fixed by the property: cases whose outcome depends on it are "
@@ -120,16 +121,19 @@ CLAIMED = {
         technique="Coq proof (vote = first maximal total by induction; line dialect from the parse theorem; composition for consistent files) + differential correspondence",
         design="4 (C09)"),
     "C02": dict(
-        text="Coq theorems (Properties/C02.v, 11 statements, closed under the global context) about the model of the GFF3 "
+        text="Coq theorems (Properties/C02.v, 12 statements, closed under the global context) about the model of the GFF3 "
              "importer and of children()/parents(): for every input with unique tab/newline-free ids the import succeeds and "
              "stores each line once in order; level-1 relation rows are exactly the Parent links (dangling parents give a row, "
              "never a feature), level-2 rows exactly the composition of two level-1 links from a stored feature, nothing deeper; "
              "the table is invariant under every permutation of the lines; children/parents at level 1, 2 or None select exactly "
-             "the related stored rows, are mutually inverse, return each row once and commute with the featuretype filter. The "
+             "the related stored rows, are mutually inverse, return each row once and commute with the featuretype filter; the "
+             "relations step is exact on EVERY stored state (C02_relations_step_exact: what update() adds at level 2 are exactly "
+             "the compositions of two level-1 rows - true since the repair of F22, which the two-batch correspondence found). The "
              "model (Model/Import.v incl. the temp-file text round trip of ids, Model/Query.v) is tied to create.py/interface.py "
              "by importing ~900 generated graphs per quick run (all line orders for small graphs in the thorough tier) and "
              "comparing the whole relations table and ~50 children/parents queries per graph inside Coq, against both the model "
-             "and the declarative Parent graph.",
+             "and the declarative Parent graph; 30% of the graphs go through create_db + update() from a lazy source that "
+             "itself queries the database.",
         note="Trusted: Coq kernel + vm_compute; Model/Import.v and Model/Query.v are hand-written and tied to the code by the "
              "correspondence only; sqlite semantics (PRIMARY KEY, INSERT OR IGNORE, DISTINCT) modelled. Domain: one ID value per "
              "line, ids unique, non-empty, without tab/CR/LF (ids with a TAB make _update_relations raise: out of domain, see "
@@ -173,21 +177,23 @@ CLAIMED = {
         technique="Coq proof (per-strategy state-transition theorems, attribute-union theorem) + exhaustive small-scope differential correspondence",
         design="4 (C05)"),
     "C03": dict(
-        text="Coq theorems (Properties/C03.v, 10 statements, closed under the global context) about the model of the GTF "
+        text="Coq theorems (Properties/C03.v, 14 statements, closed under the global context) about the model of the GTF "
              "importer: no line is ever its own parent or child (all lines, keys, configurations); an ordinary line gets exactly "
              "(transcript,line,1), (gene,line,2), (gene,transcript,1), an explicit transcript line exactly (gene,transcript,1), "
              "an explicit gene line nothing; the derived extent is exactly min start .. max end of the related subfeatures on "
              "their seqid/strand; both flags off = identity, each flag suppresses exactly its derived type; derived features are "
              "keyed by their transcript/gene id (retrievable by id); a line already stored under that id stays the single "
-             "feature. The composition (every transcript/gene owning a subfeature gets exactly one such feature) is decided by "
-             "the correspondence, which checks it directly on the implementation's tables for ~260 generated annotations per "
+             "feature; _update_relations end to end (C03_inference_appends / _transcript_inferred / _gene_inferred / "
+             "_nothing_else_derived): exactly the derived rows are appended, one per (transcript, gene) pair and gene, each "
+             "retrievable by its id with the extent query's answer, ids stay unique, relations and counters untouched. The "
+             "correspondence checks the property directly on the implementation's tables for ~260 generated annotations per "
              "quick run (shuffled, explicit lines, 4 flag combinations, custom keys/subfeature, text and Feature input) besides "
              "comparing all four tables with the model inside Coq.",
         note="Trusted: Coq kernel + vm_compute; Model/Import.v (GTF part: relation triples, the DISTINCT/ORDER BY pair query, "
              "MIN/MAX with bare columns, temp-file round trip as identity on tab/newline-free fields, merge on collision) is "
              "hand-written and tied by the correspondence only. Domain: lines carry both ids, one seqid/strand per transcript "
-             "and gene, integer coordinates, gene ids distinct from transcript ids. The end-to-end extent theorem over the "
-             "whole import is not proved (component theorems + correspondence).",
+             "and gene, integer coordinates, gene ids distinct from transcript ids. The end-to-end theorems take the "
+             "populated state as given and assume the derived ids new and pairwise distinct (inhabited by an example; component theorems + correspondence).",
         technique="Coq proof (relation-triple, min/max extent, flag and collision theorems on the importer model) + differential correspondence with a direct spec check",
         design="4 (C03)"),
     "C10": dict(
@@ -241,8 +247,10 @@ CLAIMED = {
              "fresh ids are pairwise distinct and were never issued before (via autoid injectivity); with the default criteria "
              "on start-ordered features of one (seqid, strand, type) class consecutive outputs are separated by >= 1 uncovered "
              "base and every base of an output is covered by a member, i.e. the extents are the maximal runs (the interval "
-             "union). 'Merging the same objects again', previously merged objects, ambiguous-value columns, children_bp (sum, "
-             "and per-class union size with merge=True) and merge_all (new row per multi-member run; members related at level 1 "
+             "union); children_bp is the summed child lengths, and with merge=True (default criteria, start-ordered children of "
+             "one class) the NUMBER OF POSITIONS covered by at least one child (C16_children_bp_union, counted over any window). "
+             "'Merging the same objects again', previously merged objects, ambiguous-value columns, children_bp on mixed classes "
+             "and merge_all (new row per multi-member run; members related at level 1 "
              "or deleted) are decided by the correspondence: every multiset of <= 3 (thorough: 4) intervals over 8 positions, "
              "17 criteria sets incl. thresholds and two custom criteria, ~14k cases per quick run compared inside Coq.",
         note="Trusted: Coq kernel + vm_compute; translator for merge_criteria.py; Model/Merge.v (the loop, _finalize_merge, "
@@ -270,19 +278,24 @@ CLAIMED = {
         technique="Coq proof (loop = declarative gaps by induction; splice-site geometry) + exhaustive small-scope differential correspondence",
         design="4 (C15)"),
     "C17": dict(
-        text="Coq theorems (Properties/C17.v, 11 statements, closed under the global context): Attributes stores a sequence "
+        text="Coq theorems (Properties/C17.v, 14 statements, closed under the global context): Attributes stores a sequence "
              "whatever is set (scalar -> one-item list; list/tuple kept; other keys untouched); always_return_list changes only "
              "the view of one-item lists, never what is stored; attributes -> JSON text -> attributes is the identity incl. key "
-             "order for any content, relative to the json library's own round trip (oracle hypothesis); merge_attributes yields "
+             "order - relative to an abstract codec, and for the codec modelled as text (Model/Json.v: simplejson.dumps with "
+             "compact separators and ensure_ascii, strict simplejson.loads with surrogate-pair handling): loads (dumps a) = a for "
+             "every mapping of Unicode scalar values, more generally whenever no high surrogate is directly followed by a low "
+             "one (and a witness that this side condition is necessary); merge_attributes yields "
              "per key exactly the union of both arguments' values (numeric_sort on or off), sorted and duplicate-free; Feature "
              "equality holds iff the printed lines are equal and equal Features hash alike. Tied to attributes.py/helpers.py/"
              "feature.py by 5k cases per quick run: assignment sequences through Feature[k] and .attributes[k] read under both "
-             "switch settings, _jsonify/_unjsonify on adversarial Unicode (controls, quotes, backslashes, astral characters), "
+             "switch settings, _jsonify's text compared character by character and _unjsonify compared with the model decoder on "
+             "adversarial Unicode (controls, quotes, backslashes, astral and surrogate code points) and on ~1500 damaged or "
+             "hand-written JSON texts, "
              "merge_attributes pairs with numeric/non-numeric values (arguments deep-compared before/after), Feature pairs "
              "compared by ==, str and hash against the printer model.",
         note="Trusted: Coq kernel + vm_compute; Model/Container.v, Model/Attrs.v hand-written, tied by the correspondence. "
-             "simplejson is an oracle (its round trip on str->list-of-str dicts is assumed in C17_json_identity and observed "
-             "directly on the implementation). float() for numeric_sort is modelled on plain decimals <= 15 digits. That "
+             "simplejson is modelled (Model/Json.v, the object-of-string-lists sub-grammar and the dialect dictionary) and tied by "
+             "the correspondence. float() for numeric_sort is modelled on plain decimals <= 15 digits. That "
              "merge_attributes does not modify its arguments is not expressible about immutable Gallina values: decided by the "
              "correspondence only.",
         technique="Coq proof (container laws, union theorem, equality via printed line) + differential correspondence; JSON relative to an oracle",
